@@ -180,6 +180,9 @@ func (t *Transaction) Write(p []byte) (n int, err error) {
 	copy(t.ParamCount[:], p[20:22])
 
 	scanner := bufio.NewScanner(bytes.NewReader(p[22:tranLen]))
+	// A field can be up to 4+65535 bytes long, which exceeds bufio.MaxScanTokenSize; no field can be
+	// longer than the transaction that holds it.
+	scanner.Buffer(nil, len(p))
 	scanner.Split(FieldScanner)
 
 	for i := 0; i < int(paramCount); i++ {
